@@ -117,9 +117,14 @@ fn run_t<T: SampleX>(c0: &Case) -> Outcome {
     let (mut ta, mut tb) = (new_trace::<T>(), new_trace::<T>());
     let (orig, mx) = (cfg.ratio, cfg.max_rel);
     let process = Op::Process { path: Path::Pib, slack_in: 0, slack_out: 0, mask: None };
-    // one warm-up call so that the setters act on a used instance
-    a.step(0, &process, &sig, &mut ta);
-    b.step(0, &process, &sig, &mut tb);
+    // one warm-up call so that the setters act on a used instance (bit 15 of skip_process: none, the first
+    // control call then acts on the freshly constructed instance)
+    if c0.skip_process & 0x8000 == 0 {
+        a.step(0, &process, &sig, &mut ta);
+        b.step(0, &process, &sig, &mut tb);
+    } else {
+        o.class("first control call on a fresh instance");
+    }
     let mut cur_chunk = cfg.chunk;
     for (i, ctl) in c0.ctls.iter().enumerate() {
         let i = i + 1;
@@ -313,8 +318,15 @@ impl Property for C12 {
         sp.max_channels = 2;
         // exact stratum: dyadic original and max, where quotient and bound tests cannot disagree
         let exact = (-4i32..=4, 0i32..=4).prop_map(|(a, b)| (2f64.powi(a), 2f64.powi(b)));
-        (config_strategy(sp), any::<u64>(), proptest::collection::vec(ctl, 1..=10), prop_oneof![3 => Just(None), 1 => exact.prop_map(Some)], prop_oneof![2 => Just(None), 1 => (1.0f64..16.0).prop_map(Some)], prop_oneof![4 => Just(false), 1 => Just(true)], prop_oneof![1 => Just(0u16), 1 => any::<u16>()])
-            .prop_map(|(mut cfg, seed, ctls, exact, mr, via_vec, skip_process)| {
+        (config_strategy(sp), any::<u64>(), proptest::collection::vec(ctl, 1..=10), prop_oneof![3 => Just(None), 1 => exact.prop_map(Some)], prop_oneof![2 => Just(None), 1 => (1.0f64..16.0).prop_map(Some)], prop_oneof![4 => Just(false), 1 => Just(true)], prop_oneof![1 => Just(0u16), 1 => any::<u16>()], prop_oneof![3 => Just(None), 1 => (1usize..=4096).prop_map(Some)])
+            .prop_map(|(mut cfg, seed, ctls, exact, mr, via_vec, skip_process, k)| {
+                if let (Some(k), true, None) = (k, cfg.kind.is_async(), exact) {
+                    // chunk / ratio == k up to rounding (where differently rounded size formulas disagree)
+                    let r = cfg.chunk as f64 / k as f64;
+                    if (1.0 / 64.0..=64.0).contains(&r) {
+                        cfg.ratio = r;
+                    }
+                }
                 if let Some((r, m)) = exact {
                     cfg.ratio = r;
                     cfg.max_rel = m;
